@@ -179,7 +179,22 @@ def structure_obls(E, alignment, soft, rz):
         else:
             obls.append(Obl("every-unit-exactly-once", len(occ) == 1, rz))
     obls.append(Obl("at-least-one-unitary-alignment", len(alignment.unitary_alignments) >= 1, rz))
+    obls += solver_option_obls(E["state"].problems, rz)
     return obls, (tuples if wellformed else None)
+
+
+HARMLESS_SOLVER_OPTIONS = {"verbose"}
+
+
+def solver_option_obls(problems, rz, prefix=""):
+    """the MIP stub's contract ("solve returns an optimal 0/1 point") only describes a solver that is asked for an exact optimum:
+    any option handed to solve() other than the solver's name and `verbose` (gap tolerances, time / node limits, presolve
+    switches ...) is outside that contract and is reported"""
+    out = []
+    for k, p in enumerate(problems):
+        extra = sorted(set(p.get("options") or {}) - HARMLESS_SOLVER_OPTIONS)
+        out.append(Obl(prefix + "solver-asked-for-an-exact-optimum(no gap / limit option)", not extra, rz))
+    return out
 
 
 def run_alignment(ns, E, mode):
@@ -509,6 +524,25 @@ def medium_cases(seed=0):
     return cases
 
 
+def dense_cases(n, seed=0):
+    """4 annotators x 5 competing / overlapping units: the LP relaxation is often fractional, so that the MIP solver has to branch
+    (this is where a gap tolerance or a search limit shows)"""
+    import random
+    rnd = random.Random(77 + seed)
+    cases = []
+    for k in range(n):
+        units = []
+        for a in range(4):
+            t = rnd.uniform(0, 2)
+            for j in range(5):
+                dur = rnd.uniform(1.0, 4.0)
+                s = max(0.0, t + rnd.uniform(-1.5, 1.0))
+                units.append([ANN[a], repr(s), repr(s + dur), rnd.choice(["x", "y", "z"])])
+                t = s + dur
+        cases.append(dict(shape=[5, 5, 5, 5], units=units, annotators=ANN[:4], alpha=1, beta=1, de=1, dissim="combined"))
+    return cases
+
+
 def real_medium_check(case, mode="best", backends=("cbc",)):
     """best / soft alignment of a medium continuum on the real build against an independent MILP over all tuples"""
     import itertools
@@ -518,7 +552,9 @@ def real_medium_check(case, mode="best", backends=("cbc",)):
     from pyannote.core import Segment
     from scipy.optimize import milp, LinearConstraint, Bounds
     bad = []
-    for seed_case in medium_cases(case.get("seed", 0)):
+    for seed_case in (case.get("cases") or medium_cases(case.get("seed", 0))):
+        if len(bad) >= 3:
+            break
         c = pa.Continuum()
         for a in seed_case["annotators"]:
             c.add_annotator(a)
